@@ -13,9 +13,13 @@ pub fn prop() -> Prop {
   Prop {
     id: "C13",
     rule: "case = (cold source: of / of_option / of_result / of_fn / start / from_iter / repeat / empty / never / throw / create script / defer(source) / from_future(poll-counting ready future); chain of 1..5 cloneable C03 operators whose closures count their calls; built once as CloneableBoxOp (or CloneableBoxOpThreads); 2..3 clones subscribed successively, optionally a further clone subscribed from inside the first subscription's first callback). \
-           Oracle: after building, every counter (source closures, defer factories, future polls, map/filter/scan/tap closures) is 0; after k subscriptions the source closure / factory ran exactly k times and the future was polled k times; every subscription's notification sequence equals the reference interpreter's. Non-trivial: the chain contains an operator that keeps state (take, skip, last, scan, distinct, buffer, pairwise, default_if_empty, ...) and the source emits >= 1 item. Distinct by hash(case).",
+           Oracle: after building, every counter (source closures, defer factories, future polls, map/filter/scan/tap closures) is 0; after k subscriptions the source closure / factory ran exactly k times and the future was polled k times; every subscription's notification sequence equals the reference interpreter's. Non-trivial: the chain contains an operator that keeps state (take, skip, last, scan, distinct, buffer, pairwise, default_if_empty, ...) and the source emits >= 1 item. Distinct by hash(case). \
+           Part `overlap`: pipelines of depth <= 4 over every operator that has a cloneable form (the C03 catalogue, finalize, box_it, observe_on, delay, delay_subscription, subscribe_on, debounce, throttle, buffer_with_time, buffer_with_count_and_time, the eight two-input combinators) on cold sources and virtual-clock intervals, built once; 2..3 clones are subscribed at generated, overlapping virtual times and each is unsubscribed 12 ticks after its own start. Oracle (metamorphic, no model): every subscription's trace, with times relative to its own start, equals the trace of a single subscription of the same pipeline run alone in a fresh world; finalize callbacks ran once per subscription and finalize node. Non-trivial (overlap): two subscriptions are alive at the same time and the pipeline uses the scheduler or a stateful operator.",
     assumptions: &["the nested subscription is made on a *clone* of the pipeline (the form of re-entrancy the property names)"],
-    parts: vec![Part { name: "cold-chains", run: run_case, tape_len: 64, quick_cases: 600_000, thorough_cases: 12_000_000, exhaustive_depth: None, exhaustive_budget: 0, exh_quick: false }],
+    parts: vec![
+      Part { name: "cold-chains", run: run_case, tape_len: 64, quick_cases: 600_000, thorough_cases: 12_000_000, exhaustive_depth: None, exhaustive_budget: 0, exh_quick: false },
+      Part { name: "overlap", run: run_overlap, tape_len: 96, quick_cases: 400_000, thorough_cases: 8_000_000, exhaustive_depth: None, exhaustive_budget: 0, exh_quick: false },
+    ],
   }
 }
 
@@ -139,4 +143,122 @@ fn run_case(c: &mut dyn Choices, ctx: &Ctx) -> Outcome {
     None
   };
   Outcome { verdict, nontrivial: stateful && emits, hash: hash_of(&case), labels, notes: vec![], desc }
+}
+
+
+// ------------------------------------------------------------ overlap ------
+
+fn gen_clone_un(c: &mut dyn Choices) -> Un {
+  match c.pick(14) {
+    0 => Un::Finalize,
+    1 => Un::BoxIt,
+    2 => Un::ObserveOn,
+    3 => Un::Delay(c.pick(4) as u64),
+    4 => Un::DelaySubscription(c.pick(3) as u64),
+    5 => Un::SubscribeOn,
+    6 => Un::Debounce(1 + c.pick(3) as u64),
+    7 => Un::Throttle(gen_edge(c)),
+    8 => Un::BufferWithTime(1 + c.pick(3) as u64),
+    9 => Un::BufferWithCountAndTime(1 + c.pick(3), 1 + c.pick(3) as u64),
+    _ => gen_un_c03(c, 3, 4),
+  }
+}
+
+fn gen_clone_node(c: &mut dyn Choices, depth: usize) -> Node {
+  if depth == 0 || c.pick(6) == 0 {
+    return Node::Src(match c.pick(5) {
+      0 | 1 => Src::Interval(1 + c.pick(3) as u64),
+      2 => Src::Defer(Box::new(Node::Src(Src::Interval(1 + c.pick(3) as u64)))),
+      _ => gen_src(c),
+    });
+  }
+  if c.pick(4) == 0 {
+    let a = gen_clone_node(c, depth - 1);
+    let b = gen_clone_node(c, depth - 1);
+    Node::Bin(gen_bin(c), c.pick(3) == 0, Box::new(a), Box::new(b))
+  } else {
+    let inner = gen_clone_node(c, depth - 1);
+    Node::Un(gen_clone_un(c), c.pick(3) == 0, Box::new(inner))
+  }
+}
+
+fn fmt_rel(t: &[(u64, Ev)]) -> String {
+  t.iter().map(|(vt, e)| format!("{}@+{}", ev_short(e), vt)).collect::<Vec<_>>().join(" ")
+}
+
+fn run_overlap(c: &mut dyn Choices, ctx: &Ctx) -> Outcome {
+  const HORIZON: u64 = 12;
+  let depth = 1 + c.pick(4);
+  let node = gen_clone_node(c, depth);
+  let n = 2 + c.pick(2);
+  let mut starts: Vec<u64> = vec![0];
+  for _ in 1..n {
+    let last = *starts.last().unwrap();
+    starts.push(last + c.pick(8) as u64);
+  }
+  let threads = c.pick(3) == 0;
+  let run = |starts: &[u64]| {
+    guarded_strict(|| if threads { crate::threads::exec_overlap(&node, starts, HORIZON) } else { crate::local::exec_overlap(&node, starts, HORIZON) })
+  };
+  let alone = run(&[0]);
+  let shared = run(&starts);
+  let mut n_finalize = 0usize;
+  let mut stateful = node.uses_scheduler();
+  node.visit(&mut |x| match x {
+    Node::Un(Un::Finalize, ..) => n_finalize += 1,
+    Node::Un(op, ..) => {
+      if !matches!(op, Un::Map(_) | Un::MapTo(_) | Un::Filter(_) | Un::FilterMap | Un::Tap | Un::IgnoreElements | Un::OnErrorMap(_) | Un::BoxIt) {
+        stateful = true
+      }
+    }
+    Node::Bin(..) => stateful = true,
+    _ => {}
+  });
+  let overlapping = starts.windows(2).any(|w| w[1] < w[0] + HORIZON);
+  let mut labels: Vec<&'static str> = vec!["part:overlap"];
+  if threads {
+    labels.push("build:threads");
+  }
+  if node.uses_scheduler() {
+    labels.push("uses-scheduler");
+  }
+  let names = crate::props::c01::op_names(&node);
+  let verdict = match (&alone, &shared) {
+    (Ok(None), _) | (_, Ok(None)) => return Outcome::discard(),
+    (Err(_), Err(_)) => {
+      labels.push("panic-both");
+      Verdict::Ok
+    }
+    (Err(m), _) | (_, Err(m)) => Verdict::Violation { sig: format!("panic:{names}"), detail: m.clone() },
+    (Ok(Some((ta, ca))), Ok(Some((ts, cs)))) => {
+      let reference = &ta[0];
+      let mut v = Verdict::Ok;
+      for (i, t) in ts.iter().enumerate() {
+        if t != reference {
+          v = Verdict::Violation {
+            sig: format!("not-independent:{names}"),
+            detail: format!("subscription #{i} (started at t={}) delivered [{}] but a subscription run alone delivers [{}]", starts[i], fmt_rel(t), fmt_rel(reference)),
+          };
+          break;
+        }
+      }
+      if matches!(v, Verdict::Ok) && (ca.finalize_calls != n_finalize || cs.finalize_calls != n_finalize * starts.len()) {
+        v = Verdict::Violation {
+          sig: format!("finalize-count:{names}"),
+          detail: format!("{} finalize operator(s): alone {} callback run(s), {} overlapping subscriptions {} run(s) (expected {})", n_finalize, ca.finalize_calls, starts.len(), cs.finalize_calls, n_finalize * starts.len()),
+        };
+      }
+      v
+    }
+  };
+  let desc = if ctx.want_desc || matches!(verdict, Verdict::Violation { .. }) {
+    Some(json!({
+      "pipeline": node.short(), "subscription_starts": starts, "each_unsubscribed_after": HORIZON, "build": if threads {"CloneableBoxOpThreads"} else {"CloneableBoxOp"},
+      "alone": alone.as_ref().map(|r| json!(r.as_ref().map(|(t, _)| fmt_rel(&t[0])))).unwrap_or_else(|m| json!({"panic": m})),
+      "overlapping": shared.as_ref().map(|r| json!(r.as_ref().map(|(t, _)| t.iter().map(|x| fmt_rel(x)).collect::<Vec<_>>()))).unwrap_or_else(|m| json!({"panic": m})),
+    }))
+  } else {
+    None
+  };
+  Outcome { verdict, nontrivial: overlapping && stateful, hash: hash_of(&(&node, &starts, threads)), labels, notes: vec![], desc }
 }
